@@ -3,7 +3,7 @@ from checks import relational
 
 TECHNIQUE = "two symbolic executions of the real Model.build/process (and of set_initialization / ParameterScenario.get_parset / deepcopy / pickle) on z3-real proxies compared output by output: z3 term identity where both runs build the same term, SMT otherwise; counterexamples replayed on the unpatched code"
 EXPLANATION = 'Pairs of runs on M12 (programs) and M10 (function parameters): no programs vs programs starting at Y (Y on and off the grid, three interactions); identical instructions except a change dated Y in a stepped spending / capacity / coverage series that also states the earlier value (incl. a series whose first point lies after the program start); baseline parset vs ParameterScenario.get_parset with first overwrite at Y (linear and previous, data parameter and function parameter); and a run to T vs T+2 points. Obligation: every stock, flow, parameter and sum-characteristic at every index with t < Y (all common indices for the end-year extension) is equal in both runs (lockstep as in C08). The stop-year clause (targets return to data values) is discharged in C13. Bounds: T <= 7 time points, dt = 0.25, one population (two with a transfer in thorough), values in unit ranges; floats as reals.'
-GROUP_TIMEOUT = {"quick": 900, "thorough": 3000}
+GROUP_TIMEOUT = {"quick": 1800, "thorough": 3600}
 
 
 def groups(tier):
